@@ -5,7 +5,8 @@ Protocol (see lean/Driver/Cells.lean).  Cells are named by their key in `space._
 comma-separated ints (`1,2,0`; a network node or Voronoi index is a single int); `-` is None.
 
   scenario grid <moore|vn|hex> <torus 0|1> <cap|-> <d1,d2,...>
-  scenario net <directed 0|1> <cap|-> <n> [a-b ...]
+  scenario net <0|1|m0|m1> <cap|-> <n> [a-b ...]      (Graph | DiGraph | MultiGraph | MultiDiGraph on nodes 0..n-1; the edge list may
+                                                       hold self loops a-a, repeated and antiparallel edges)
   scenario vor <cap|-> <n> p:x,y ... t:a,b,c ...     (t: the exact Delaunay triangles, for the model)
   scenario vor d <n> p:... t:... a:num/den ...         (default capacity_function; a: the exact Voronoi cell areas, one per cell)
   new cell|fixed|g2d | set a c|- | moveto a c | moverel a key | move a Dir k | remove a
@@ -294,7 +295,8 @@ class Header:
         if self.kind == "grid":
             self.grid, self.torus, self.cap, self.dims = w[2], w[3] == "1", parse_opt_int(w[4]), parse_tuple(w[5])
         elif self.kind == "net":
-            self.directed, self.cap, self.n = w[2] == "1", parse_opt_int(w[3]), int(w[4])
+            # `m0` / `m1`: a MultiGraph / MultiDiGraph (parallel edges are kept by networkx; the adjacency is the same)
+            self.directed, self.multi, self.cap, self.n = w[2] in ("1", "m1"), w[2].startswith("m"), parse_opt_int(w[3]), int(w[4])
             self.edges = [tuple(int(x) for x in e.split("-")) for e in w[5:]]
         elif self.kind == "vor":
             # `d`: the default `capacity_function` (capacity = int(area * 500) per cell, areas given exactly as a:num/den)
@@ -341,7 +343,8 @@ class Impl:
             elif h.kind == "net":
                 import networkx as nx
 
-                G = nx.DiGraph() if h.directed else nx.Graph()
+                G = {(False, False): nx.Graph, (True, False): nx.DiGraph, (False, True): nx.MultiGraph,
+                     (True, True): nx.MultiDiGraph}[h.directed, h.multi]()
                 G.add_nodes_from(range(h.n))
                 G.add_edges_from(h.edges)
                 self.space = ds.Network(G, capacity=h.cap, random=self.rng)
@@ -900,7 +903,9 @@ def gen_grid_header(R, max_axes=3, max_size=4, caps=(None, None, 1, 1, 2, 3), ma
     return f"scenario grid {kind} {R.randint(0, 1)} {'-' if cap is None else cap} {','.join(map(str, dims))}"
 
 
-def gen_net_header(R, max_nodes=8, caps=(None, None, 1, 1, 2, 3), directed_p=0.15):
+def gen_net_header(R, max_nodes=8, caps=(None, None, 1, 1, 2, 3), directed_p=0.15, rich=False):
+    """`rich`: beyond simple graphs — self loops, repeated and antiparallel edges, either orientation of an undirected edge,
+    MultiGraph / MultiDiGraph (about 45% of the headers)"""
     n = R.randint(1, max_nodes)
     p = R.choice([0.0, 0.2, 0.4, 0.7])
     edges = [(a, b) for a in range(n) for b in range(a + 1, n) if R.random() < p]
@@ -908,8 +913,27 @@ def gen_net_header(R, max_nodes=8, caps=(None, None, 1, 1, 2, 3), directed_p=0.1
     directed = R.random() < directed_p
     if directed:
         edges = [(a, b) if R.random() < 0.5 else (b, a) for a, b in edges]
+    multi = False
+    if rich and R.random() < 0.45:
+        multi = R.random() < 0.35
+        extra = []
+        for _ in range(R.choice([1, 1, 2, 3])):
+            k = R.random()
+            if k < 0.45 or not edges:
+                a = R.randrange(n)
+                extra.append((a, a))  # self loop
+            elif k < 0.75:
+                extra.append(R.choice(edges))  # the same edge again
+            else:
+                a, b = R.choice(edges)
+                extra.append((b, a))  # antiparallel (DiGraph: a second connection; Graph: the same edge)
+        if not directed:
+            edges = [(a, b) if R.random() < 0.6 else (b, a) for a, b in edges]
+        for e in extra:
+            edges.insert(R.randrange(len(edges) + 1), e)
     cap = R.choice(caps)
-    return f"scenario net {int(directed)} {'-' if cap is None else cap} {n} " + " ".join(f"{a}-{b}" for a, b in edges)
+    kind = ("m" if multi else "") + str(int(directed))
+    return f"scenario net {kind} {'-' if cap is None else cap} {n} " + " ".join(f"{a}-{b}" for a, b in edges)
 
 
 FALLBACK_POINTS = [(-3, -6), (6, -9), (3, 4), (-9, 5), (-1, -2)]  # in general position, also with the frame corners
@@ -970,13 +994,19 @@ def gen_vor_header(R, max_points=7, caps=(None, None, 1, 1, 2, 3), span=9, defau
             + " ".join(f"t:{a},{b},{c}" for a, b, c in tris) + (f" s:{scale}" if scale != 1 else ""))
 
 
-def gen_header(R, default_caps=False, **kw):
+RICH_CAPS = (None, None, 1, 1, 2, 3, 0)  # capacity 0 is falsy: `add_agent` never refuses, `is_full` means "empty"
+
+
+def gen_header(R, default_caps=False, rich=False, **kw):
+    """`rich` (C06 / C07 only; C18 and C19 keep the plain headers): non-simple networks and capacity 0"""
     k = R.random()
+    if rich:
+        kw = dict(kw, caps=RICH_CAPS)
     if k < 0.6:
         return gen_grid_header(R, **kw)
     if k < 0.85:
-        return gen_net_header(R)
-    return gen_vor_header(R, default_cap=default_caps and R.random() < 0.5)
+        return gen_net_header(R, rich=rich, **({"caps": RICH_CAPS} if rich else {}))
+    return gen_vor_header(R, default_cap=default_caps and R.random() < 0.5, **({"caps": RICH_CAPS} if rich else {}))
 
 
 def cell_names(h):
@@ -1077,8 +1107,8 @@ def gen_coll(R, h, names, impl=None, agents=True):
     return f"coll {expr} {verb}"
 
 
-def gen_c06(R, rejecting=False, n_ops=None, header=None, edits=False, default_caps=False):
-    hd = header or (gen_header(R, default_caps=default_caps) if not rejecting else
+def gen_c06(R, rejecting=False, n_ops=None, header=None, edits=False, default_caps=False, rich=False):
+    hd = header or (gen_header(R, default_caps=default_caps, rich=rich) if not rejecting else
                     R.choice([gen_grid_header(R, max_size=3, caps=(1, 1, 1, 2), max_cells=12),
                               gen_grid_header(R, max_size=3, caps=(1, 1, 1, 2), max_cells=12),
                               gen_net_header(R, max_nodes=5, caps=(1, 1, 2)),
@@ -1295,9 +1325,26 @@ def oracle_c06(sc, obs, reject_clause=True):
     return bad
 
 
+def net_tags(w0):
+    """what kind of graph a `scenario net` header describes"""
+    edges = [tuple(e.split("-")) for e in w0[5:]]
+    if w0[2] in ("1", "m1"):
+        yield "directed"
+    if w0[2].startswith("m"):
+        yield "net:multigraph"
+    if any(a == b for a, b in edges):
+        yield "net:self-loop"
+    if len(set(edges)) < len(edges):
+        yield "net:repeated-edge"
+    if any((b, a) in edges for a, b in edges if a != b):
+        yield "net:antiparallel-edges"
+
+
 def tags_c06(sc, obs):
     w0 = sc.lines[0].split()
     yield "space:" + (w0[2] if w0[1] == "grid" else w0[1])
+    if w0[1] == "net":
+        yield from net_tags(w0)
     if w0[1] == "grid":
         yield f"axes:{len(w0[5].split(','))}"
         yield "torus:" + w0[3]
@@ -1331,6 +1378,9 @@ def tags_c06(sc, obs):
             b = dict(t.split(":") for t in prev["ag"]).get(w[1])
             if a == b and a not in (None, "-"):
                 yield "branch:re-entered-own-cell"
+                if w[0] in ("moverel", "move"):
+                    # a connection that leads back to the cell itself (self loop of a Network, torus axis of size 1, an edit)
+                    yield "branch:re-entered-own-cell-along-a-connection"
         if "|" in o:
             prev = parse_dump(o)[1]
 
@@ -1435,7 +1485,7 @@ def gen_c07(R, tier):
         # hex; odd offset-axis sizes on a torus are outside the property's quantifier but the model follows the code
         hd = grid_header("hex", R.randint(0, 1), (R.randint(1, 6), R.choice([1, 2, 2, 3, 4, 4, 5, 6, 6])), None)
     elif k < 0.80:
-        hd = gen_net_header(R, max_nodes=12, caps=(None,), directed_p=0.2)
+        hd = gen_net_header(R, max_nodes=12, caps=(None,), directed_p=0.2, rich=True)
     else:
         hd = gen_vor_header(R, max_points=9 if tier == "thorough" else 8, caps=(None,))
     h = Header(hd.split())
@@ -1573,8 +1623,8 @@ def tags_c07(sc, obs):
             yield "axis-of-size-1"
         if "2" in dims:
             yield "axis-of-size-2"
-    if w0[1] == "net" and w0[2] == "1":
-        yield "directed"
+    if w0[1] == "net":
+        yield from net_tags(w0)
     seen = set()
     for l, o in zip(sc.lines[1:], obs[1:]):
         w = l.split()
